@@ -76,11 +76,15 @@ def scenarios(seed, tier):
         dirs = rnd.sample(["a", "b", "sub/c", "d-e", "v.1/f", "z", "sub/a", "x/z"], rnd.randrange(1, 6))
         if s < 2:
             dirs = ["a", "sub/a", "z", "x/z"]        # always present: two pairs of same-named packages, one of them large
+        if s in (2, 3, 4, 5):
+            dirs = ["a", "b", "sub/c"]               # always present: a partly translatable, a translatable and an untranslatable package
         pkgs, reduced, kinds, errs = {}, {}, {}, {}
         for i, d in enumerate(dirs):
             kind = rnd.choice(["good", "good", "bad", "mixed", "good", "good", "bad", "mixed", "broken", "big"])
             if s < 2:
                 kind = "big" if d == "a" else ("bad" if (s == 1 and d == "x/z") else "good")
+            if s in (2, 3, 4, 5):
+                kind = ["mixed", "good", "bad", "good", "good"][i % 5]
             name = d.split("/")[-1].replace("-", "_").replace(".", "_")
             files, red, he = mk_pkg(rnd, name, kind, 100 * i)
             # build-tag guarded files: only the `goose` one belongs to the package goose sees
@@ -90,7 +94,10 @@ def scenarios(seed, tier):
                 files["tag_nogoose.go"] = "//go:build !goose\n\npackage %s\n\nfunc NotGoose%d() uint64 {\n\treturn 2\n}\n" % (name, i)
                 red["tag_nogoose.go"] = files["tag_nogoose.go"]
             pkgs[d], reduced[d], kinds[d], errs[d] = files, red, kind, he
-        ptype = rnd.choice(["dotdotdot", "explicit", "importpath", "subset", "dir"])
+        ptype = rnd.choice(["dotdotdot", "explicit", "importpath", "subset", "dir", "overlap", "dirrel"])
+        if s in (2, 3, 4, 5):
+            # always present: up-to-date PARTIAL output under -ignore-errors; patterns that overlap; -dir with a relative -out
+            ptype = {2: "explicit", 3: "overlap", 4: "dirrel", 5: "overlap"}[s]
         if ptype == "dotdotdot":
             patterns, matched = ["./..."], list(dirs)
         elif ptype == "explicit":
@@ -102,17 +109,23 @@ def scenarios(seed, tier):
         elif ptype == "subset":
             matched = rnd.sample(dirs, rnd.randrange(1, len(dirs) + 1))
             patterns = ["./" + d for d in matched]
+        elif ptype == "overlap":
+            # patterns whose matches overlap: the go tool takes their union, each package once
+            matched = list(dirs)
+            patterns = ["./...", "./" + dirs[0]] if s % 2 else ["./" + d for d in dirs] + ["example.com/m/" + dirs[-1], "./" + dirs[0]]
         else:
             matched = list(dirs)
             patterns = ["./..."]
         prior = {d: rnd.choice(["a", "a", "s", "d"]) for d in matched}
+        if s in (2, 5):
+            prior = {d: "s" for d in matched}
         for d in matched:
             if kinds[d] == "big" and (rnd.random() < 0.7 or s < 2):
                 prior[d] = "s"
         if rnd.random() < 0.15:
             prior[matched[-1]] = "u"
         yield {"pkgs": pkgs, "reduced": reduced, "kinds": kinds, "errs": errs, "patterns": patterns, "matched": matched,
-               "ptype": ptype, "ignore": rnd.random() < 0.5, "prior": prior, "s": s,
+               "ptype": ptype, "ignore": (rnd.random() < 0.5) or s in (2, 5), "prior": prior, "s": s,
                "extra_flags": rnd.sample(["-typecheck", "-source-comments", "-skip-interfaces"], rnd.randrange(0, 2))}
 
 
@@ -150,6 +163,12 @@ def check(ctx):
             root = os.path.join(scratch, "m")
             gomod.write_module(root, sc["pkgs"])
             outdir = os.path.join(root, "Goose")
+            workdir = os.path.join(scratch, "work")
+            shutil.rmtree(workdir, ignore_errors=True)
+            if sc["ptype"] == "dirrel":
+                # a relative -out is relative to the working directory, not to -dir
+                os.makedirs(workdir)
+                outdir = os.path.join(workdir, "gen")
             flags = (["-ignore-errors"] if sc["ignore"] else []) + sc["extra_flags"]
             # what each package translates to (with -ignore-errors), to prepare the prior state
             ref_root = os.path.join(scratch, "ref")
@@ -182,6 +201,12 @@ def check(ctx):
             before = gomod.tree(outdir)
             if sc["ptype"] == "dir":
                 rc, out, err = gomod.run_goose(root, ["-dir", root] + flags, sc["patterns"], out=outdir, cwd=scratch)
+            elif sc["ptype"] == "dirrel":
+                rc, out, err = gomod.run_goose(root, ["-dir", root] + flags, sc["patterns"], out="gen", cwd=workdir)
+                stray = gomod.tree(os.path.join(root, "gen"))
+                if stray:
+                    viol(sc, "with -dir and a relative -out, files were written below the module directory instead of the working directory",
+                         "files under <working directory>/gen only", {"files_under_module_dir/gen": sorted(stray)})
             else:
                 rc, out, err = gomod.run_goose(root, flags, sc["patterns"], out=outdir)
             after = gomod.tree(outdir)
